@@ -547,6 +547,11 @@ def compare_form(ctx, rc, name, form, obj, ref=None):
     if ref is None:
         ref = run_sets(rc.rq, Chem.AddHs(obj))
     got = run_sets(rc.rq, Chem.Mol(obj))
+    if any('->' in x or '<-' in x for r in (ref, got) if r[0] == 'ok' for ps in r[1] for x in ps):
+        # a dative bond has a direction, and RDKit's canonical SMILES of a symmetric species depends on it (seen: [H]N1[C]N->1[H] /
+        # [H]N1[C]N<-1[H] for the two orientations): the observable is not an invariant there (A-canon), the case is not judged
+        ctx.count('hydrogen_form_not_judged_dative_bond')
+        return True
     ctx.count('hydrogen_form_checks')
     ctx.count('hydrogen_form_' + form.split('-isotope')[0])
     a = ref if ref[0] == 'exc' else ('ok', sorted(ref[1]))
